@@ -251,7 +251,10 @@ class Algebra:
 
     @cached_property
     def matrix_basis(self):
-        return matrix_rep(self.p, self.q, self.r, signature=self.signature)
+        blades = None
+        if self.basis:
+            blades = [tuple(int(c, base=16) - self.start_index for c in name[1:]) for name in self.canon2bin]
+        return matrix_rep(self.p, self.q, self.r, signature=self.signature, blades=blades)
 
     @cached_property
     def frame(self) -> list:
